@@ -122,24 +122,31 @@ CHECKS["C40"] = dict(
                "configurations: the code's two channels (every later message delivered; nothing after all unsubscriptions were applied "
                "unless one overtook its subscription) and one ordered queue (nothing after, unconditionally; no overtaking). The "
                "generator emits one history per (source state, operation, select choice) edge plus random walks over 3 keys; each is "
-               "executed on subscribe.NewSubPub() and PubSubTrace.tla judges every Publish",
+               "executed on subscribe.NewSubPub() and PubSubTrace.tla judges every Publish. "
+               "A third configuration splits a publication into load / per-subscriber delivery steps interleaved with the applications "
+               "(2 Subscribe calls; thorough 3), and a focused generator holds the real Publish inside Notify of one subscriber (3 notifiers, "
+               "3 subscriptions) while error channels fire and unsubscriptions are applied, then releases it",
     level_note="trusted: TLC, the verif hooks of pkg/subscribe (callback at the end of each process() iteration, channel lengths, "
                "subscriber lists), the harness notifier (records Notify, closes its error channel). Publish is only called while "
                "process() is parked at the hook or idle; the goroutines started by Subscribe are waited for (channel lengths) before "
-               "the next operation, i.e. a fired error channel queues all its unsubscriptions at once. PublishArray, the rpc-backed "
+               "the next operation, i.e. a fired error channel queues all its unsubscriptions at once. A held publication is one Publish "
+               "blocked in the harness notifier's Notify (at most one at a time, no Subscribe while it is held). PublishArray, the rpc-backed "
                "notifiers and NotifierWithDelay are not exercised",
     design=[dict(spec="MCPubSub.tla", cfg="MCPubSub.cfg", cfg_thorough="MCPubSub_thorough.cfg", workers=8, timeout=3000),
-            dict(spec="MCPubSub.tla", cfg="MCPubSubOrdered.cfg", cfg_thorough="MCPubSubOrdered_thorough.cfg", workers=8, timeout=3000)],
+            dict(spec="MCPubSub.tla", cfg="MCPubSubOrdered.cfg", cfg_thorough="MCPubSubOrdered_thorough.cfg", workers=8, timeout=3000),
+            dict(spec="MCPubSub.tla", cfg="MCPubSubFlight.cfg", cfg_thorough="MCPubSubFlight_thorough.cfg", workers=8, timeout=3000)],
     gen=dict(
         quick=[dict(mode="edges", spec="PubSubGen.tla", cfg="PubSubGenEdges.cfg", depth=14, max=1500, name="edges"),
-               dict(mode="sim", spec="PubSubGen.tla", cfg="PubSubGenSim.cfg", depth=22, num=10, max=200, name="walks")],
+               dict(mode="sim", spec="PubSubGen.tla", cfg="PubSubGenSim.cfg", depth=22, num=10, max=200, name="walks"),
+               dict(mode="edges", spec="PubSubGen.tla", cfg="PubSubGenFlight.cfg", depth=12, name="in-flight")],
         thorough=[dict(mode="edges", spec="PubSubGen.tla", cfg="PubSubGenEdges.cfg", depth=14, name="edges", timeout=3000),
-                  dict(mode="sim", spec="PubSubGen.tla", cfg="PubSubGenSim.cfg", depth=30, num=100, max=3000, name="walks", timeout=3000)]),
+                  dict(mode="sim", spec="PubSubGen.tla", cfg="PubSubGenSim.cfg", depth=30, num=100, max=3000, name="walks", timeout=3000),
+                  dict(mode="edges", spec="PubSubGen.tla", cfg="PubSubGenFlightT.cfg", depth=12, name="in-flight", timeout=3000)]),
     judge=dict(spec="PubSubTrace.tla", cfg="PubSubTrace.cfg"), judge_timeout=3600, driver_timeout=3000,
     corrupt=_c40_corrupt,
     selftest_scenarios=200,
-    nontrivial=lambda s: any(o["op"] == "sub" for o in s["ops"]) and any(o["op"] == "pub" for o in s["ops"]),
-    rule="TLC-generated histories of sub/fire/step/pub over 2 notifiers (edges mode: one shortest history per (source state, operation, "
+    nontrivial=lambda s: any(o["op"] == "sub" for o in s["ops"]) and any(o["op"] in ("pub", "pubstart") for o in s["ops"]),
+    rule="TLC-generated histories of sub/fire/step/pub (and pubstart..pubend: a publication held inside one Notify) over 2-3 notifiers (edges mode: one shortest history per (source state, operation, "
          "choice of channel) edge of the gated PubSub state graph with <= 3 subscriptions over 2 keys; walks: -simulate with <= 7 "
          "subscriptions over 3 keys); distinct = distinct operation sequence incl. wanted select choices; non-trivial = subscribes and publishes",
     exhaustive=dict(quick=False, thorough=False),
